@@ -179,8 +179,10 @@ func (v *Verifier) scanEffects(blocks []*ssa.BasicBlock, e *effects, visiting ma
 			case *ssa.MakeMap:
 				e.allocs = true
 				e.heaps["M:"+TypeKey(x.Type())] = true
+				e.heaps["ML:"+TypeKey(x.Type())] = true
 			case *ssa.MapUpdate:
 				e.heaps["M:"+TypeKey(x.Map.Type())] = true
+				e.heaps["ML:"+TypeKey(x.Map.Type())] = true
 			case *ssa.MakeClosure:
 				e.allocs = true
 			case *ssa.Slice:
@@ -228,6 +230,7 @@ func (v *Verifier) callEffects(c *ssa.CallCommon, e *effects, visiting map[*ssa.
 			e.heaps["S:"+TypeKey(c.Args[0].Type().Underlying().(*types.Slice).Elem())] = true
 		case "delete":
 			e.heaps["M:"+TypeKey(c.Args[0].Type())] = true
+			e.heaps["ML:"+TypeKey(c.Args[0].Type())] = true
 		}
 	case *ssa.Function:
 		v.mergeEffects(e, v.effectsOfCallee(callee, visiting))
@@ -320,6 +323,7 @@ func addReachable(t types.Type, out map[string]bool, seen map[string]bool, depth
 		addReachable(u.Elem(), out, seen, depth+1)
 	case *types.Map:
 		out["M:"+TypeKey(t)] = true
+		out["ML:"+TypeKey(t)] = true
 	case *types.Interface:
 		out["*iface*"] = true
 	}
@@ -385,6 +389,9 @@ func (u *Unit) wf(s *State, t types.Type, v *Term) *Term {
 		}
 		if ut.Info()&types.IsString != 0 {
 			return Ge(w.StrLen(v), IntLit(0))
+		}
+		if ut.Info()&types.IsFloat != 0 && w.FM == FloatBits {
+			return And(App("<=", "Bool", IntLit(0), v), App("<", "Bool", v, pow2(64)))
 		}
 	case *types.Slice:
 		return And(
@@ -462,6 +469,13 @@ func (u *Unit) initialState() *State {
 		u.EntryVals = append(u.EntryVals, v)
 		if u.C != nil && i < len(u.C.Params) {
 			u.ParamVals[u.C.Params[i]] = v
+		}
+	}
+	// a method's pointer receiver is not nil (calling a method on a nil pointer is the caller's error)
+	if recv := u.Fn.Signature.Recv(); recv != nil && len(u.Fn.Params) > 0 {
+		if _, ok := recv.Type().Underlying().(*types.Pointer); ok {
+			s.assume(Not(Eq(f.Vals[u.Fn.Params[0]].T, IntLit(0))))
+			u.Assumed["pointer receivers are not nil"] = true
 		}
 	}
 	for _, fv := range u.Fn.FreeVars {
@@ -655,13 +669,23 @@ func (u *Unit) load(s *State, f *Frame, p *Ptr, ty types.Type, in ssa.Instructio
 		_, h := u.heap(s, "P", p.Elem)
 		base = Select(h, p.Ref)
 	case PElem:
-		if p.Idx == nil {
-			// whole array behind pointer-to-array
-			u.unsup("load of whole array through pointer")
-		}
 		u.check(s, "nil", in, "nil pointer dereference", Not(Eq(p.Ref, IntLit(0))))
 		_, h := u.heap(s, "S", p.Elem)
-		base = Select(Select(h, p.Ref), p.Idx)
+		if p.Idx == nil {
+			// whole array behind pointer-to-array
+			arr, ok := ty.Underlying().(*types.Array)
+			if !ok || arr.Len() > 16 || len(p.Path) > 0 {
+				u.unsup("load of whole array through pointer")
+			}
+			dt := u.W.ArrayDT(arr)
+			args := make([]*Term, arr.Len())
+			for i := range args {
+				args[i] = Select(Select(h, p.Ref), IntLit(int64(i)))
+			}
+			base = Mk(dt, args...)
+		} else {
+			base = Select(Select(h, p.Ref), p.Idx)
+		}
 	}
 	t := u.applyPath(base, p.Path)
 	if p.Kind == PCell || p.Kind == PElem || p.Kind == PGlobal {
@@ -677,7 +701,7 @@ func (u *Unit) load(s *State, f *Frame, p *Ptr, ty types.Type, in ssa.Instructio
 func needsWF(t types.Type) bool {
 	switch ut := t.Underlying().(type) {
 	case *types.Basic:
-		return ut.Info()&(types.IsInteger|types.IsString) != 0
+		return ut.Info()&(types.IsInteger|types.IsString|types.IsFloat) != 0
 	case *types.Slice, *types.Pointer, *types.Map, *types.Interface, *types.Signature:
 		return true
 	case *types.Array:
@@ -712,7 +736,26 @@ func (u *Unit) store(s *State, f *Frame, p *Ptr, v *Term, in ssa.Instruction) {
 		u.setHeap(s, key, Store(h, p.Ref, nv))
 	case PElem:
 		if p.Idx == nil {
-			u.unsup("store of whole array through pointer")
+			// whole array through pointer-to-array: element-wise
+			n := int(p.ArrLen)
+			if n < 0 || n > 16 || len(p.Path) > 0 {
+				u.unsup("store of whole array through pointer")
+			}
+			u.check(s, "nil", in, "nil pointer dereference", Not(Eq(p.Ref, IntLit(0))))
+			key, h := u.heap(s, "S", p.Elem)
+			row := Select(h, p.Ref)
+			dt := u.W.dts[v.Sort]
+			if dt == nil || len(dt.Fields) != n {
+				u.unsup("store of whole array through pointer (sort %s)", v.Sort)
+			}
+			for i := 0; i < n; i++ {
+				u.frameCheck(s, key, p.Ref, IntLit(int64(i)), in)
+				row = Store(row, IntLit(int64(i)), Sel(dt, i, v))
+			}
+			if n > 0 {
+				u.setHeap(s, key, Store(h, p.Ref, row))
+			}
+			return
 		}
 		u.check(s, "nil", in, "nil pointer dereference", Not(Eq(p.Ref, IntLit(0))))
 		key, h := u.heap(s, "S", p.Elem)
@@ -739,7 +782,7 @@ func (u *Unit) exec(s *State, f *Frame, in ssa.Instruction) []*State {
 		if a, ok := pt.Underlying().(*types.Array); ok {
 			key, h := u.heap(s, "S", a.Elem())
 			// zeroed backing array
-			zrow := Leaf(fmt.Sprintf("((as const %s) %s)", ArraySort("Int", w.SortOf(a.Elem())), w.Zero(a.Elem())), ArraySort("Int", w.SortOf(a.Elem())))
+			zrow := w.ZeroRow(a.Elem())
 			u.setHeap(s, key, Store(h, ref, zrow))
 			f.Vals[x] = Value{P: &Ptr{Kind: PElem, Ref: ref, Elem: a.Elem(), ArrLen: a.Len()}, Ty: x.Type()}
 			return nil
@@ -838,7 +881,7 @@ func (u *Unit) exec(s *State, f *Frame, in ssa.Instruction) []*State {
 		elem := x.Type().Underlying().(*types.Slice).Elem()
 		ref := u.allocRef(s)
 		key, h := u.heap(s, "S", elem)
-		zrow := Leaf(fmt.Sprintf("((as const %s) %s)", ArraySort("Int", w.SortOf(elem)), w.Zero(elem)), ArraySort("Int", w.SortOf(elem)))
+		zrow := w.ZeroRow(elem)
 		u.setHeap(s, key, Store(h, ref, zrow))
 		f.Vals[x] = Value{T: w.MkSlice(ref, IntLit(0), ln, cp), Ty: x.Type()}
 		return nil
